@@ -166,6 +166,11 @@ class Engine:
         ob.axioms = self.axioms
         ob.meta.setdefault("trace", tr)
         ob.meta.setdefault("base", self.prefix + name)
+        # the path used an over-approximated value (an unmodelled operation answered by an
+        # arbitrary result): a refutation on it is not a counterexample, only a proof counts
+        approx = [n for n in st.notes if "over-approximat" in n]
+        if approx:
+            ob.meta["approx"] = approx[:3]
         self.obligations.append(ob)
         return ob
 
